@@ -319,7 +319,10 @@ def run(ck, sq_cases, tag, values=None):
                 if want and want in body:
                     found = True
             elif len(want) >= 3 and any(ch in want for ch in SPECIAL) and want in body:
-                leaked.append((i, body))
+                # a text piece of the marker's statement is the planner's own text, not request bytes
+                bb = base.get(pos)
+                if bb is None or body not in set(x for kk, x in res[bb][3] if kk == "T"):
+                    leaked.append((i, body))
         located += 1 if found else 0
         bp = by_pos.setdefault(pos, [0, 0, 0])
         bp[0] += 1
